@@ -13,6 +13,7 @@ from .. import common, solvex, cfgs, monitors as mon
 
 LEVEL = "exploration"
 MOD = "C18"
+SITE_EXEMPT = {}     # evaluation sites this check cannot reach (site -> reason); see solvex.site_floor
 
 BOX = {"lo": [-1.5, -0.5], "hi": [0.9, 1.7]}
 DIAG = {"logging.save_diagnostic_info": True}
@@ -223,6 +224,7 @@ def run(report, tier, seed):
     salts = common.salts_for(tier, seed)
     cps = _configs(tier, salts)
     res = solvex.explore(report, MOD, cps, classify=classify)
+    solvex.site_floor(report, res["tags"], exempt=SITE_EXEMPT)
     tags = res["tags"]
     cov = report.coverage
     its = sorted(t for t in tags if t.startswith("iter_type:"))
